@@ -16,6 +16,7 @@ from .c02 import composition_factory, env_rng_state
 
 ID = 'C04'
 LEVEL = 'exploration'
+DEBUG_TOGGLE = True  # runner flips the library debug flag every 97 monitored executions
 TECHNIQUE = 'runtime monitoring: shadow-trace monitor (a twin environment with the same seed threaded through the functional interface exactly when the documented lazy semantics would call it), call counter on functional_observation per state epoch, generator snapshots around repeated reads, freshness check against a third environment for deterministic observation functions'
 LEVEL_TEXT = ('Random operation sequences over {reset, step, read state, read observation 0-3 times}, with mid-episode resets and '
               'stretches of steps without reads, are run on the stateful interface of every shipped config and of random '
@@ -32,7 +33,7 @@ RULE = ('case = (config or composition, seed, operation sequence). non-trivial =
         'without read, and a mid-episode reset; distinct by (config, seed, hash of the operation sequence).')
 ASSUMPTIONS = ['twin environments built from the same configuration with the same seed start from identical generator states']
 REQUIRED = {'quick': {'sequences': 60, 'ops': 8000, 'reads.first_after_change': 1500, 'reads.repeated': 1500,
-                      'before_reset.checked': 60, 'outer.checked': 500, 'outer.no_representation': 20, 'outer.inner_read_first': 200,
+                      'before_reset.checked': 60, 'outer.checked': 500, 'outer.no_representation': 20, 'outer.inner_read_first': 200, 'outer.representation_reassigned': 30,
                       'stochastic_obs.sequences': 8, 'fresh.deterministic_checked': 1000}}
 
 
@@ -181,6 +182,17 @@ def outer_checks(ctx, make, label, ops, payload, state_ok):
             outer = OuterEnv(inner, state_representation=srep, observation_representation=orep)
             outer.reset()
             for i, op in enumerate(ops[:40]):
+                if i == 14:
+                    # the representations are public attributes (the gym layer reassigns them): the outer environment must
+                    # follow a reassignment, including from / to "no representation"
+                    new_o = ctx.rng.choice([None] + names)
+                    new_s = ctx.rng.choice([None] + names) if state_ok else None
+                    orep = make_observation_representation(new_o, inner.observation_space) if new_o else None
+                    srep = make_state_representation(new_s, inner.state_space) if new_s else None
+                    outer.observation_representation = orep
+                    outer.state_representation = srep
+                    sname, oname = new_s, new_o
+                    ctx.hit('outer.representation_reassigned')
                 if isinstance(op, tuple) and op[0] == 'step':
                     acts = outer.action_space.actions
                     res = outer.step(acts[op[1] % len(acts)])
